@@ -66,6 +66,12 @@ impl Scenario for Hb {
             v.push(json!({"h": h, "server": [], "client_at": [h * 700, h * 1400]}));
             // a broker that takes 1.5 intervals to answer Open: the timers run during the handshake
             v.push(json!({"h": h, "server": [], "client_at": [], "open_delay_ms": h * 1500}));
+            // a peer that stops reading and talking: the client's heartbeats pile up unsent, the
+            // tx and rx timeouts expire at the same instant (both orders of handing them out)
+            for newest_first in [false, true] {
+                v.push(json!({"h": h, "server": [], "client_at": [], "dead_peer": true, "newest_first": newest_first}));
+                v.push(json!({"h": h, "server": [[h * 500, "hb"]], "client_at": [h * 250], "dead_peer": true, "newest_first": newest_first}));
+            }
             // (whole frames only here: the client makes a request while the server is talking)
             let chatty_frames: Vec<Value> = (1..=13).map(|i| json!([i * h * 900, "hb"])).collect();
             v.push(json!({"h": h, "server": chatty_frames, "client_at": [], "open_delay_ms": h * 1500}));
@@ -114,6 +120,9 @@ impl Scenario for Hb {
             }
         }
         let mut cfg = EnvConfig::default();
+        let dead_peer = p["dead_peer"] == true;
+        cfg.no_grants = dead_peer;
+        let newest_first = p["newest_first"] == true;
         let horizon_ms = if h == 0 { 1_000_000_000 } else { 6 * h * 1000 };
         cfg.horizon_ns = (horizon_ms + 10) * MS;
         let client_at: Vec<u64> = p["client_at"].as_array().unwrap().iter().map(|x| x.as_u64().unwrap()).collect();
@@ -122,6 +131,7 @@ impl Scenario for Hb {
             broker: Box::new(broker),
             cfg,
             root: Box::new(move |ctx: Ctx| {
+                amiquip::verif::clock::set_timer_tie_newest_first(newest_first);
                 let mut conn = match open(&ctx, ConnectionOptions::default().heartbeat(if h == 0 { 0 } else { 600 }).connection_timeout(ctimeout), ConnectionTuning::default()) {
                     Ok(c) => c,
                     Err(e) => {
@@ -131,6 +141,9 @@ impl Scenario for Hb {
                 };
                 ctx.log(format!("opened at {}", ctx.now_ms()));
                 let ch = conn.open_channel(Some(1));
+                if dead_peer {
+                    ctx.stall_transport();
+                }
                 for t in &client_at {
                     let now = ctx.now_ms();
                     if *t > now {
@@ -226,7 +239,10 @@ impl Scenario for Hb {
                 break;
             }
         }
-        // --- client sends something at least every h while alive
+        // --- client sends something at least every h while alive (if the peer takes it)
+        if p["dead_peer"] == true {
+            return v;
+        }
         let mut last_w = start;
         for (t, _) in o.write_times.iter() {
             if *t > alive_until {
